@@ -37,9 +37,17 @@ def _cmp(a, b, na, nb, op, cfg, where):
 def observe(sess, hist, op, exc, valid, reason, pre, acc):
     cfg = sess.cfg
     where = f"after {[kdriver.op_str(o) for o in hist]}"
-    if exc is not None:
-        return
     tdf = sess.tdf
+    if exc is not None:
+        # a call that raised has also "returned": nothing may have been updated in memory only
+        if op is not None and op[0] == "bad":
+            try:
+                mem = sess.mem_entries()
+                d_now = kdriver.disk_entries(R.parse_file(sess.disk()))
+            except Exception as x:  # noqa: BLE001
+                raise core.Violation("table-unreadable", kcommon.sig(PROP, "table-unreadable", ("rejected",), cfg), None, f"{where}: {x}")
+            _cmp([m[:7] for m in mem], [d[:7] for d in d_now], "open-object", "disk-now", ("rejected-" + op[1],), cfg, where)
+        return
     mem = sess.mem_entries()
     now = sess.disk()
     try:
@@ -84,78 +92,38 @@ def observe(sess, hist, op, exc, valid, reason, pre, acc):
 _shard = kcommon.make_run(__name__, "observe")
 
 
+def _late_faults(cfg, model):
+    """Requests that are refused only after the block / entry has been looked at (the ones a
+    memory-only table update would survive)."""
+    out = []
+    full = len(model.live) >= model.n
+    for t in cfg.types:
+        if t not in model.live and not full:
+            out.append(("bad", "add", t, "comment_long", 0))
+        elif t in model.live:
+            out.append(("bad", "replace", t, "comment_noncp", 0))
+    return out
+
+
 def _chain_shard(cfg_w):
-    """Every straight-line history up to depth 3 in ONE context on ONE object, with reads between
-    the operations (hidden read-side state would show up here)."""
-    import itertools
+    from . import c07
 
     cfg = kdriver.Config.from_witness(cfg_w)
     acc = core.Acc()
-    directory = env.scratch_dir("kc")
-    root = kdriver.Model.from_config(cfg)
-
-    def walk(prefix, model):
-        for op in kdriver.ops_for(cfg, model):
-            if op[0] == "reopen" or (op[0] == "remove" and op[2] == "instance"):
-                continue
-            hist = prefix + (op,)
-            sess = kdriver.Session(cfg, directory)
-            sess.model = kdriver.copy_model(root)
-            try:
-                ok = True
-                for k, o in enumerate(hist):
-                    pre = {"disk": sess.disk()}
-                    exc, valid, reason = sess.step(o)
-                    kdriver.touch_readers(sess)
-                    if k == len(hist) - 1:
-                        acc.n["transitions"] += 1
-                        acc.n["chains"] += 1
-                        try:
-                            observe(sess, hist, o, exc, valid, reason, pre, acc)
-                            acc.n["traces"] += 1
-                        except core.Violation as v:
-                            ok = False
-                            acc.violation(v.clause, v.sig + ":chain", {"config": cfg.to_witness(), "base": None, "chain": True,
-                                                                       "ops": [list(x) for x in hist],
-                                                                       "history": [kdriver.op_str(x) for x in hist]}, v.detail)
-                    if exc is not None:
-                        ok = False
-                m2 = kdriver.copy_model(sess.model)
-            finally:
-                sess.close()
-            if ok and len(hist) < 3:
-                walk(hist, m2)
-
-    walk((), root)
-    acc.n["states"] += acc.n["chains"]
+    kdriver.explore_chains(cfg, observe, acc, depth=3, fault_call=c07.call_fault, fault_ops=_late_faults)
     return acc
 
 
 def run(tier):
     acc = kcommon.run_configs(__name__, tier)
-    small = [c for c in kdriver.configs(tier) if c.n <= 2 and c.nvar <= 2][:4 if tier == "quick" else 8]
+    small = kcommon.chain_configs(tier)
     acc.merge(core.pmap(__name__, "_chain_shard", [c.to_witness() for c in small]))
     return acc
 
 
 def replay(w):
     if w.get("chain"):
-        cfg = kdriver.Config.from_witness(w["config"])
-        sess = kdriver.Session(cfg, env.scratch_dir("kr"))
-        sess.model = kdriver.Model.from_config(cfg)
-        try:
-            hist = ()
-            for o in w["ops"]:
-                o = tuple(o)
-                pre = {"disk": sess.disk()}
-                exc, valid, reason = sess.step(o)
-                kdriver.touch_readers(sess)
-                hist += (o,)
-            try:
-                observe(sess, hist, o, exc, valid, reason, pre, core.Acc())
-            except core.Violation as v:
-                return v
-            return None
-        finally:
-            sess.close()
+        from . import c07
+
+        return kdriver.replay_chain(w, observe, c07.call_fault)
     return kcommon.replay(w, observe)
